@@ -101,13 +101,19 @@ def showEnd (unpacked : Bool) (e : SimEnd Res) : String :=
   let rr := match e.runner.resultsReps with | none => "none" | some r => showReps r
   s!"st={showStatus e.status} log={showList idx e.log} reps={showReps e.runner.reps} rr={rr} res={res} store={store}"
 
-def runOps (cfg : Cfg Res) : List Op → Runner Res → List (Outcome Res) → List String → List String × Runner Res
-  | [], r, _, acc => (acc.reverse, r)
-  | op :: ops, r, outs, acc =>
+/-- also reports whether some call got past the refusal (only then does `runner.results`
+    carry the parameters of the runner) -/
+def runOps (cfg : Cfg Res) : List Op → Runner Res → List (Outcome Res) → Bool → List String →
+    List String × Runner Res × Bool
+  | [], r, _, sim, acc => (acc.reverse, r, sim)
+  | op :: ops, r, outs, sim, acc =>
     let e := match op with
       | .all => simulateAll cfg r outs
       | .single i => simulateSingle cfg r i outs
-    runOps cfg ops e.runner e.rest (showEnd (!cfg.dims.isEmpty) e :: acc)
+    let ran := match op with
+      | .all => true
+      | .single _ => r.file
+    runOps cfg ops e.runner e.rest (sim || ran) (showEnd (!cfg.dims.isEmpty) e :: acc)
 
 def showPack {X} (f : X → String) : Except Err (List X) → String
   | .ok l => showList f l
@@ -122,9 +128,10 @@ def handleSim (toks : List String) : Option String := do
   let outs ← parseOuts ((kv toks "outs").getD "")
   let looks ← (fields ((kv toks "look").getD "") "/").mapM parseFixed
   let cfg : Cfg Res := ⟨Res.merge, repMax, dimsOf ps, keep⟩
-  let (lines, r) := runOps cfg ops (Runner.new file) outs []
+  let (lines, r, sim) := runOps cfg ops (Runner.new file) outs false []
   let lk := looks.map (fun fx =>
-    showPack (fun (s : Stored Res) => toString s.acc.tok) (resultValues ps r.results fx))
+    showPack (fun (s : Stored Res) => toString s.acc.tok)
+      (resultValues (if sim then ps else []) r.results fx))
   some (" ; ".intercalate lines ++ " ; look=" ++ "/".intercalate lk)
 
 def handleGrid (toks : List String) : Option String := do
@@ -139,8 +146,13 @@ def handleGrid (toks : List String) : Option String := do
 
 inductive HOp
   | all
+  | single (i : Int)
+  | rmax (k : Nat)
+  | file (b : Bool)
+  | del (b : Bool)
   | par (op : POp)
   | query (fixed : List (String × Int))
+  | hold (fixed : List (String × Int))
 
 def parseFixedPlus (s : String) : Option (List (String × Int)) :=
   (fields s "+").mapM (fun t =>
@@ -151,34 +163,91 @@ def parseFixedPlus (s : String) : Option (List (String × Int)) :=
 def parseHOp (t : String) : Option HOp :=
   if t = "all" then some .all
   else if t.startsWith "q:" then (parseFixedPlus (t.drop 2).toString).map HOp.query
+  else if t.startsWith "hq:" then (parseFixedPlus (t.drop 3).toString).map HOp.hold
   else match t.splitOn ":" with
+    | ["single", i] => i.toInt?.map HOp.single
+    | ["rmax", k] => k.toNat?.map HOp.rmax
+    | ["file", b] => some (HOp.file (b == "1"))
+    | ["del", b] => some (HOp.del (b == "1"))
     | ["padd", n, vs] => (parseIntList? vs ".").map (fun l => HOp.par (.add n (.list l)))
     | ["pscalar", n, v] => v.toInt?.map (fun v => HOp.par (.add n (.scalar v)))
     | ["prem", n] => some (HOp.par (.remove n))
     | ["punp", n, b] => some (HOp.par (.setUnpack n (b == "1")))
     | _ => none
 
-def runHist (repMax : Nat) (keep : Nat → Keep Res) :
-    List HOp → PState → Runner Res → List (Outcome Res) → Bool → List String → List String
-  | [], _, _, _, _, acc => acc.reverse
-  | .par op :: ops, ps, r, outs, sim, acc =>
-    let (ps', e) := ps.step op
-    runHist repMax keep ops ps' r outs sim (("p=" ++ showStatus e) :: acc)
-  | .all :: ops, ps, r, outs, sim, acc =>
+/-- everything that lives across the calls of one history -/
+structure HState where
+  repMax : Nat
+  del : Bool
+  ps : PState
+  /-- the copy of the parameters stored in `runner.results` by the last `simulate()` -/
+  rps : Option PState
+  runner : Runner Res
+  outs : List (Outcome Res)
+  held : List String
+
+def showValues (ps : PState) (results : List (Stored Res)) (fx : List (String × Int)) : String :=
+  match ps.lookup results fx with
+  | .error e => "error:" ++ toString e
+  | .ok l => showPack (fun (s : Stored Res) => toString s.acc.tok) l.values
+
+/-- `_simulation_configurator.setup`: `params['rep_max'] = rep_max` -/
+def withRepMax (h : HState) : PState := (h.ps.step (.add "rep_max" (.scalar h.repMax))).1
+
+def stepHist (keep : Nat → Keep Res) (h : HState) : HOp → HState × String
+  | .par op =>
+    let (ps', e) := h.ps.step op
+    ({ h with ps := ps' }, "p=" ++ showStatus e)
+  | .rmax k => ({ h with repMax := k }, "a=ok")
+  | .file b => ({ h with runner := { h.runner with file := b } }, "a=ok")
+  | .del b => ({ h with del := b }, "a=ok")
+  | .all =>
+    let ps := withRepMax h
     match ps.view with
-    | .error e => runHist repMax keep ops ps r outs sim (("st=" ++ toString e) :: acc)
+    | .error e => ({ h with ps := ps }, "st=" ++ toString e)
     | .ok pl =>
-      let cfg : Cfg Res := ⟨Res.merge, repMax, dimsOf pl, keep⟩
-      let e := simulateAll cfg r outs
-      runHist repMax keep ops ps e.runner e.rest true (showEnd (!cfg.dims.isEmpty) e :: acc)
-  | .query fx :: ops, ps, r, outs, sim, acc =>
-    let line := match ps.lookup r.results fx with
+      let cfg : Cfg Res := ⟨Res.merge, h.repMax, dimsOf pl, keep⟩
+      let e := (simulateAll cfg h.runner h.outs).afterCleanup h.del
+      ({ h with ps := ps, rps := some ps, runner := e.runner, outs := e.rest },
+        showEnd (!cfg.dims.isEmpty) e)
+  | .single i =>
+    if !h.runner.file then
+      -- refused before anything is cleared: the runner shows what it showed before
+      let unp := match h.ps.view with
+        | .ok pl => !(dimsOf pl).isEmpty
+        | .error _ => true
+      (h, showEnd unp ⟨h.runner, [], h.outs, some .RuntimeError⟩)
+    else
+      let ps := withRepMax h
+      match ps.view with
+      | .error e => ({ h with ps := ps }, "st=" ++ toString e)
+      | .ok pl =>
+        let cfg : Cfg Res := ⟨Res.merge, h.repMax, dimsOf pl, keep⟩
+        let e := simulateSingle cfg h.runner i h.outs
+        ({ h with ps := ps, rps := some ps, runner := e.runner, outs := e.rest },
+          showEnd (!cfg.dims.isEmpty) e)
+  | .query fx =>
+    let line := match h.ps.lookup h.runner.results fx with
       | .error e => "q=" ++ toString e
       | .ok (l : Lookup (Stored Res)) =>
         let cs := showList (fun (c : List Int) => showList toString c ".") l.combos "|"
-        let rv := if sim then showPack (fun (s : Stored Res) => toString s.acc.tok) l.values else "-"
+        let rv := match h.rps with
+          | some rp => showValues rp h.runner.results fx
+          | none => "-"
         s!"n={l.num} nc={l.combos.length} combos={cs} pack={showPack toString l.pack} rv={rv}"
-    runHist repMax keep ops ps r outs sim (line :: acc)
+    (h, line)
+  | .hold fx =>
+    match h.rps with
+    | none => (h, "h=-")
+    | some rp =>
+      let v := showValues rp h.runner.results fx
+      ({ h with held := h.held ++ [v] }, "h=" ++ v)
+
+def runHist (keep : Nat → Keep Res) : List HOp → HState → List String → List String
+  | [], h, acc => (("held=" ++ "|".intercalate h.held) :: acc).reverse
+  | op :: ops, h, acc =>
+    let (h', line) := stepHist keep h op
+    runHist keep ops h' (line :: acc)
 
 def handleHist (toks : List String) : Option String := do
   let pl ← parseParams ((kv toks "names").getD "") ((kv toks "vals").getD "")
@@ -187,7 +256,8 @@ def handleHist (toks : List String) : Option String := do
   let ops ← (fields ((kv toks "ops").getD "") ",").mapM parseHOp
   let outs ← parseOuts ((kv toks "outs").getD "")
   let ps0 : PState := ⟨pl.map (fun p => (p.1, PVal.list p.2)), (pl.map (·.1)).reverse⟩
-  some (" ; ".intercalate (runHist repMax keep ops ps0 (Runner.new false) outs false []))
+  let h0 : HState := ⟨repMax, false, ps0, none, Runner.new false, outs, []⟩
+  some (" ; ".intercalate (runHist keep ops h0 []))
 
 def handle : List String → String
   | "hist" :: toks => (handleHist toks).getD "bad-op"
